@@ -51,8 +51,8 @@ type OptModel struct {
 }
 
 var (
-	entryNameT = []string{"", "[dir]/[name]", "[name]-[hash]", "e/[name].[hash]", "[dir]/[name]-[hash]", "[ext]/[name]-[hash]", "[name]"}
-	chunkNameT = []string{"", "chunks/[name]-[hash]", "[hash]", "c/[hash]-[name]"}
+	entryNameT = []string{"", "[dir]/[name]", "[name]-[hash]", "e/[name].[hash]", "[dir]/[name]-[hash]", "[ext]/[name]-[hash]", "[name]", ".e/[name]-[hash]"}
+	chunkNameT = []string{"", "chunks/[name]-[hash]", "[hash]", "c/[hash]-[name]", ".c/[name]-[hash]"}
 	assetNameT = []string{"", "assets/[name]-[hash]", "[name]", "[dir]/[name]", "a/[hash]"}
 	publicPathT = []string{"", "https://cdn.example.com/base", "/static/", "../up"}
 	outdirT    = []string{"out", "dist/deep", "src", "../outside", "."}
@@ -86,7 +86,7 @@ func GenOptions(g G, p *Project) *OptModel {
 	o.TxtLoader = g.n(3)
 	o.Write = g.chance(40)
 	o.AllowOverwrite = g.chance(10)
-	o.Target = g.n(5)
+	o.Target = g.n(6)
 	o.KeepNames = g.chance(15)
 	o.TreeShaking = g.n(3)
 	o.Define = g.chance(20)
@@ -164,7 +164,12 @@ func (o *OptModel) Build(p *Project) api.BuildOptions {
 		".png": []api.Loader{api.LoaderFile, api.LoaderDataURL, api.LoaderBinary, api.LoaderCopy, api.LoaderBase64}[o.BinLoader],
 		".txt": []api.Loader{api.LoaderText, api.LoaderFile, api.LoaderCopy}[o.TxtLoader],
 	}
-	b.Target = []api.Target{api.DefaultTarget, api.ESNext, api.ES2020, api.ES2017, api.ES2015}[o.Target]
+	if o.Target == 5 {
+		// an engine without import(): dynamic imports of external modules become require() calls
+		b.Engines = []api.Engine{{Name: api.EngineNode, Version: "10"}}
+	} else {
+		b.Target = []api.Target{api.DefaultTarget, api.ESNext, api.ES2020, api.ES2017, api.ES2015}[o.Target]
+	}
 	b.TreeShaking = []api.TreeShaking{api.TreeShakingDefault, api.TreeShakingFalse, api.TreeShakingTrue}[o.TreeShaking]
 	if o.Define {
 		b.Define = map[string]string{"process.env.NODE_ENV": "\"production\"", "DEBUG": "false", "VERSION": "\"1.2.3\""}
